@@ -583,7 +583,8 @@ def Port.announceRegister (p : Port) (m : Msg) (a : Ann) : Port × List Out :=
     let p1 : Port := { p with fml := (bmcaRegister p.fml p.cfg.acceptable a).1 }
     let fwd := ((tlvs m.suffix).filter (fun t => tlvPropagates t.ty)).map (fun t => Out.forward t m.header.src)
     if p1.id.clock = m.header.src.clock ∧ p1.id.port > m.header.src.port then
-      (if p1.st = .faulty then ({ p1 with multiportDisable := some 0 }, [.reset .receipt .rand] ++ fwd)
+      -- a Faulty port stays Faulty; since the `fix:` commit a Slave port stays Slave (only the mark is set)
+      (if p1.st = .faulty ∨ p1.st.isSlave = true then ({ p1 with multiportDisable := some 0 }, [.reset .receipt .rand] ++ fwd)
        else ((({ p1 with multiportDisable := some 0 } : Port).setState .passive).1,
              (({ p1 with multiportDisable := some 0 } : Port).setState .passive).2 ++ [.reset .receipt .rand] ++ fwd))
     else (p1, [.reset .receipt .rand] ++ fwd)
